@@ -47,7 +47,7 @@ func generate(w *mon.W) {
 	}
 	corpus = append(corpus, gen.Seeds()...)
 	for _, kind := range gen.WideKinds {
-		for _, n := range []int{1, 2, 3, 12, 13, 16, 17, 33} {
+		for _, n := range []int{1, 2, 3, 12, 13, 16, 17, 24, 25, 26, 33} {
 			// wide constructs join the mutation corpus; the biggest are only checked as they are
 			corpus = append(corpus, Print(gen.Wide(kind, n), Layout{Mode: 0}).Src)
 		}
